@@ -141,7 +141,7 @@ def gen_conc(rng, tier, race=False):
     for i in range(nown):
         owners.append((hx(PROTOS[i % 2] if rng.random() < 0.9 else rng.choice(PROTOS)), hx(SIDS[i]), None))
     big = tier != "quick"
-    nt = rng.randint(2, 8 if big else 6)
+    nt = rng.randint(2, 8)
     flags = "d%d" % (rng.random() < 0.6) + "y%d" % rng.choice([0, 0, 2, 5])
     toks = ["rconc" if race else "conc", flags, str(nt)]
     style = rng.random()
@@ -199,7 +199,7 @@ def gen_cases(rng, tier, budget):
     quick = tier == "quick"
     nseq = budget or (1500 if quick else 40000)
     nconc = (budget // 4) if budget else (500 if quick else 10000)
-    nrace = (budget // 20) if budget else (80 if quick else 1200)
+    nrace = (budget // 20) if budget else (150 if quick else 1500)
     cases += E2E_FIXED
     for _ in range((budget // 40) if budget else (50 if quick else 500)):
         cases.append(gen_e2e(rng))
@@ -214,7 +214,7 @@ def gen_cases(rng, tier, budget):
             who, k, hx(other), hx("s9"), hx("s1"), k, hx("s1"), k))
         cases.append("%s C 100 10 02aabbcc0001 %s 1 x %s %s %s R 100 10 02aabbcc0001 %s 1 l %s" % (
             who, hx("s1"), k, hx(other), hx("s9"), hx("s1"), k))
-        for _ in range(150 if quick else 3000):
+        for _ in range(300 if quick else 4000):
             cases.append(gen_callers(rng, who))
     for _ in range(nseq):
         cases.append(gen_seq(rng))
@@ -274,6 +274,8 @@ def gen_callers(rng, who):
             mac = m if rng.random() < 0.9 else rng.choice(["-", m[:4], m + "aa"])
             ops.append("%s %d %d %s %s %d" % ("C" if rng.random() < 0.65 else "R", s, c, mac,
                                                hx(rng.choice(SIDS[:3] + [""])), rng.random() < 0.85))
+        elif x < 0.44:
+            ops.append("Z %d %d %s %s 1" % (s, c, m, hx(rng.choice(SIDS[:3]))))
         elif x < 0.75:
             p = other if rng.random() < 0.7 else rng.choice([who] + ODD_PROTOS)
             ops.append("%s %s %s %s" % ("x" if rng.random() < 0.7 else "y", k, hx(p), hx(rng.choice(SIDS[:3]))))
@@ -284,7 +286,7 @@ def gen_callers(rng, who):
     return who + " " + " ".join(ops)
 
 
-OPLEN = {"c": 5, "r": 5, "i": 5, "l": 2, "s": 2, "m": 4, "n": 1, "C": 6, "R": 6, "x": 4, "y": 4}
+OPLEN = {"c": 5, "r": 5, "i": 5, "l": 2, "s": 2, "m": 4, "n": 1, "C": 6, "R": 6, "x": 4, "y": 4, "Z": 6}
 
 
 def split_ops(toks):
@@ -335,21 +337,22 @@ def history(impl):
     return out
 
 
-def overlaps(case, impl):
-    """number of pairs of operations on the same tuple that overlapped in real time"""
+def overlaps(case, impl, kinds=None):
+    """number of pairs of operations on the same tuple that overlapped in real time (kinds: restrict to a pair of op kinds)"""
     if not impl.startswith("H"):
         return 0
     if " | " in impl:
-        return sum(overlaps(case, h) for h in impl.split(" | "))
+        return sum(overlaps(case, h, kinds) for h in impl.split(" | "))
     _, _, progs = parse_conc(case)
-    recs = [(inv, res, progs[t][k][1]) for t, k, inv, res, _ in history(impl) if t < len(progs) and k < len(progs[t])]
+    recs = [(inv, res, progs[t][k][1], progs[t][k][0]) for t, k, inv, res, _ in history(impl)
+            if t < len(progs) and k < len(progs[t])]
     recs.sort()
     n = 0
-    for i, (inv, res, k) in enumerate(recs):
-        for inv2, res2, k2 in recs[i + 1:]:
+    for i, (inv, res, k, kd) in enumerate(recs):
+        for inv2, res2, k2, kd2 in recs[i + 1:]:
             if inv2 > res:
                 break
-            if k2 == k:
+            if k2 == k and (kinds is None or {kd, kd2} == set(kinds)):
                 n += 1
     return n
 
@@ -369,7 +372,7 @@ def nontrivial(case, out):
 
 def classify(case, impl, model):
     if impl.startswith("hang-skipped"):
-        return "G", "case not run: the harness stopped after 5 hanging cases"
+        return "G", "case not run: the harness stopped after 3 hanging cases"
     if impl.startswith("hang"):
         return "P", "the call never returned (a method left the shard mutex locked, or deadlock); specification: %s" % model[:200]
     if impl.startswith("panic"):
@@ -457,7 +460,7 @@ def distribution(cases, impl):
          "e2e_cross_protocol_takeovers": 0, "e2e_both_gone_after_takeover": 0, "caller_claims": 0, "caller_releases": 0,
          "eviction_events": 0, "ops": 0, "claim": 0, "release": 0, "isowner": 0, "lookup": 0,
          "shard_obs": 0, "count_obs": 0, "makekey": 0, "displaced_reported": 0, "claims_nil": 0,
-         "conc_ops": 0, "conc_with_overlap": 0, "overlapping_same_tuple_pairs": 0, "max_threads": 0,
+         "conc_ops": 0, "conc_with_overlap": 0, "overlapping_same_tuple_pairs": 0, "overlapping_claim_claim_pairs": 0, "overlapping_claim_release_pairs": 0, "max_threads": 0,
          "isowner_true": 0, "lookup_nil": 0, "shard_obs_equal_to_modelled_hash": 0, "hang": 0}
     names = {"c": "claim", "r": "release", "i": "isowner", "l": "lookup", "s": "shard_obs", "n": "count_obs", "m": "makekey"}
     for c, o in zip(cases, impl):
@@ -496,6 +499,8 @@ def distribution(cases, impl):
             d["conc_ops"] += len(ops)
             ov = overlaps(c, o)
             d["overlapping_same_tuple_pairs"] += ov
+            d["overlapping_claim_claim_pairs"] += overlaps(c, o, "c")
+            d["overlapping_claim_release_pairs"] += overlaps(c, o, "cr")
             d["conc_with_overlap"] += ov > 0
         for op, r in zip(ops, res):
             d["ops"] += 1
